@@ -467,6 +467,9 @@ PROPS = {
              # other stream that can run does so first.
              "instrument": "internal/ecscache=callsafter:cache\\.Get,calls:cloner\\.Clone|SetWithExpire|Dispose"},
             {"engine": "wire", "instrument": WIRE_INSTRUMENT, "cfgs": [""], "modreplace": WIRE_MODREPLACE, "share": 1, "chunk": 100},
+            # Requesters of several profiles asking the same hosts at the same time through the real filter storage.
+            {"engine": "fltsim", "cfgs": ["concq"], "share": 1, "chunk": 300,
+             "instrument": "internal/filter/internal/rulelist=locks,calls:cache\\.(Get|Set|Clear);internal/filter/hashprefix=locks,calls:resCache\\.|hashes\\.(Matches|Reset);internal/filter/filterstorage=locks"},
         ],
         "det_trace": False,
         "quick": {"seconds": 30, "chunk": 3000, "runs": 200000},
@@ -483,14 +486,17 @@ PROPS = {
                  "freshly built stack.  wire part: the real servers of every transport (plain DNS, DoT, DoH over HTTP/1.1, 2 and 3 "
                  "with wire and JSON formats, DoQ) with a disposer that overwrites every response a server has finished with, as the "
                  "cloner's pools will; 4-24 queries sent concurrently over every transport with a handler that takes 0-900 ms; every "
-                 "response must be the pipeline function's answer to its own query; every run non-trivial; distinct = distinct decision hash"),
+                 "response must be the pipeline function's answer to its own query; fltsim part: 2-3 tasks of 2-10 queries each by 2-4 requesters "
+                 "(two of them sharing the first rule list and a blocked service but not the second list) for hosts that several rules of "
+                 "several lists match, through the real filter storage with its result caches, the kernel scheduler switching at cache "
+                 "accesses; each verdict equals the stateless twin's for the same requester alone; every run non-trivial; distinct = distinct decision hash"),
         "assumptions": [
             "in the sysim part the interleaving of the streams is produced by simulated upstream delays, by yields inserted into the ECS cache (after an item is taken from the cache, before it is cloned, before an item is stored; a stream that yields sleeps one simulated nanosecond, so that every other stream that can run does so first) and by the Go scheduler; every random choice is private to a stream, so decisions replay while goroutine order may differ; sync.Pool is emptied before each run and the collector is off during it, so that what the pools hand out is a function of the run; a failure that still does not replay alone is replayed together with the runs its worker process had made before it",
             "TTLs of resolved answers may be smaller than in the reference (aged in the cache), never larger; filtered answers must carry the requester's own TTL",
             "request IDs and elapsed times inside CHAOS debug records are not compared",
         ],
         "components": {
-            "real": ["internal/dnsmsg Cloner (message, HTTPS/SVCB, OPT cloners, Dispose)", "dnssvc.NewHandlers stack with pooled request and filtering contexts, ecscache, real profiledb and device finder (sysim part)", "wire part: internal/dnsserver servers of every transport and their use of the Disposer (serverbase.go)"],
+            "real": ["internal/dnsmsg Cloner (message, HTTPS/SVCB, OPT cloners, Dispose)", "dnssvc.NewHandlers stack with pooled request and filtering contexts, ecscache, real profiledb and device finder (sysim part)", "wire part: internal/dnsserver servers of every transport and their use of the Disposer (serverbase.go)", "fltsim part: internal/filter/filterstorage.Default, composite filter, rule lists with their result caches, blocked services, AdguardTeam/urlfilter engine"],
             "stub": ["filter (verdict by name prefix, builds rewritten answers with the requester's constructor)", "upstream (answers from the wire, random simulated delay)", "transports (requests injected, response released to the cloner after write as the plain-DNS servers do)"],
             "sim": "clock: testing/synctest; private generators per stream",
         },
